@@ -12,1087 +12,837 @@ Definition show_fres (r : fres) : string :=
   end.
 Definition check (rs : list rune) : string := digest (show_fres (format_res rs)).
 Definition full (rs : list rune) : string := show_fres (format_res rs).
-Eval vm_compute in ("<<<M1657>>>" ++ check (runes_of_ascii "
-// top
+Eval vm_compute in ("<<<M1651>>>" ++ check (runes_of_ascii "
+packet
+body  {
+    @tag( 3 )
 
-options  
-  // c0
-      {  // c1a
-	// c1b
+    i16 options1
+, repeat string body
 
-LittleEndian 
-// c2
-  =	// c3a
-    // c3b
-	false 
-
-// c4
-; ArrayPrefixLenType=  // c7a
-
-	// c7b
-u8  
-  // c8
-;// c9
-FixedStringPadFromLeft	// c10a
-
-	// c10b
-	=// c11
-
-  true 
-;	// c13
-    FixedStringPadChar 
-        // c14
-
-	=
-'0' 	 // c16
-      ;
-
-    // c17
-		}  // c18
-	packet 
-    // c19
-  Heartbeat{ 
-	// c21
-	  string	lastPx
-	, uint8  // c25
-  	Qty
-, 
-    // c27
-	i64 	 // c28a
-    // c28b
-    Acct 
-
-    // c29
-	  ,  
-      // c30
-    char[// c31
-
-4
-
-    ]  // c33
-	Ref	// c34
-		, 	 // c35
-  	} packet // c37
-Fill  // c38
-      {	// c39
-
-uint8 	 // c40a
-  	// c40b
-	Ref 	 // c41
-    ,	Heartbeat 	 // c43
-  , 	 // c44a
-      // c44b
-	f32  // c45
-  OrderId, // c47
-		repeat	f32 	 // c49
-x 
-      // c50
-,// c51a
-  // c51b
-}	root
-packet Order
-// c55
-    {// c56a
-      // c56b
-      zchar[
-    // c57
-  2 // c58
-]// c59a
-
-// c59b
-	OrderId ,  
-      // c61
-	zchar[ // c62a
-
-// c62b
-2 ] 
-    // c64
-    Acct 
-// c65
-,
-// c66
-	zchar[	// c67
-	1  ] // c69
-Note // c70a
-	// c70b
-  ,
-    // c71
-  zchar[ 
-        // c72
-	  9 	 // c73
-] Qty // c75a
-	  // c75b
-
-  , // c76a
-    // c76b
-    string price// c78
-  , // c79
-	string // c80a
-
-// c80b
-  tag7 
-	// c81
-, 	 // c82a
-	// c82b
-u32 
-
-    // c83
-
-	x
-    // c84
-  ,  // c85a
-	// c85b
-match  // c86
-	  x as 	 // c88
-	Body  // c89
-
-{  // c90
-123  // c91
-  :  // c92a
-    	// c92b
-Fill , 	 // c94a
-	// c94b
-112 // c95a
-	// c95b
-  :// c96a
-// c96b
-  Heartbeat
-	, 	 // c98
-  } // c99
-  ,	// c100
-  u32 seqNo
-    // c102
-	@calculatedFrom( 	 // c103
-	  ""CRC32"" 	 // c104
-    )  
-      // c105
-
-  ,
-    // c106
-    }  // c107
-")).
-Eval vm_compute in ("<<<M1826>>>" ++ check (runes_of_ascii "// a // b
-    	packet
-
-stringy
-
-{ 
-string
-    zchar ,
-repeat
-T	,  match	u
-as charz { 007
-//x
-	:
-	    //	t
-	// @lengthOf(
-float	// trailing space 
-    ,  ""\" ++ [233]%N ++ runes_of_ascii """ :
-    Logon""a	b""
-: 
-	    //	t
-
-//	t
-	pack
-    ,  } ,
-	match uint8x  as
-    // " ++ [27880; 37322]%N ++ runes_of_ascii "
-    roots  {	1
-// `tick` ""quote"" 'q'
-  :
-len ,
-} 
-      //x
-  // " ++ [27880; 37322]%N ++ runes_of_ascii "
     ,
-	}	packet
-    zchar
-	{
-    roots 
-options1
-    //x
-    `// not a comment`  ,int64
-As , i16
-float
-@lengthOf(falsey 
-        // " ++ [27880; 37322]%N ++ runes_of_ascii "
+@calculatedFrom(// trailing space 
+    	""a\""b""
 
-  ) 
-`a\`	,
-int64 
-msg_type `tab	here` ,
-@tag(
-	0
-	// `tick` ""quote"" 'q'
-  ) repeat
-uint8x
+)x_y_z
+	@calculatedFrom(
+""a\\""	)
+`it's`
 
-,@lengthOf( x
-	) 
-repeat metadata,
-
-    zchar[0
-]
-int,
-uint64 zchar ,zchar[
-7  // " ++ [27880; 37322]%N ++ runes_of_ascii "
-  ]
-    msg_type ,
-@calculatedFrom( 
-        /// triple
-	  // " ++ [27880; 37322]%N ++ runes_of_ascii "
-  """ ++ [28040; 24687]%N ++ runes_of_ascii """ )  crc
-,
-}root packet zchar {repeat leftPad
-, } 
-packet
-	A  {  @lengthOf(
-
-    string_
-	)
-
-x  @lengthOf( options1 
-)`two words` 
-,string
-
-    len,
-}  packet
-
-    falsey  {
-
-i64_ @calculatedFrom( ""{,}"" 
-)
-	, repeat string chars 
-, 
-zchar[ 
-7	] calculatedFrom  ,Header{
-	char u`two words`,
-
-repeat
-    char[]// c
-
-	tag `say ""hi""`
-
-    , Z9_ @lengthOf( 
-T	) `line1
-line2`
-	,
-} 
-,msg_type @calculatedFrom(
-    ""// no comment"" )
-,
-
-    @rightPad
-
-(// packet A { u8 x, }
-	'\x00' 
-) @lengthOf(
-	asx
-
-    )falsey
-
-    ,}// packet A { u8 x, }
- 
-")).
-Eval vm_compute in ("<<<M1728>>>" ++ check (runes_of_ascii "
-packet pack {@lengthOf(Foo 
-
-// c
-    ) asx@lengthOf(
-	_x
-)  /// triple
-  ,
-    u8
-    x_y_z 
-`two words`
-,
-repeat
-
-    zchar[0
-
-    ] roots
-	`
-`
-    // `tick` ""quote"" 'q'
-      ,
-    lengthOf@calculatedFrom(
-
-    ""abc""
-
-    )
-,	@tag(  3 )
-
-@rightPad
-    (
-
-' '
-
-    )
-
-@calculatedFrom( ""1""
-//x
-    	// " ++ [27880; 37322]%N ++ runes_of_ascii "
-)
-	repeat
-    uint64
-	i64_	// trailing space 
-`say ""hi""`// @lengthOf(
-      ,@tag(
-007
-    )
-    match
-	roots 
+    ,	match
+    o 
 as
-    float
 
-    { 
-""a	b""
-
-: lengthOf  , [
-    1	, // @lengthOf(
-	""\n""  ,""a\""b""	,""\" ++ [233]%N ++ runes_of_ascii """	,
-
-""1"" 
-, 
-42	] :msg_type	,
-""" ++ [128512]%N ++ runes_of_ascii """  : Foo
-	}
-
-,T 	 //x
-{ match
-	Header
-
-as trueish {  [
-    // `tick` ""quote"" 'q'
-    // @lengthOf(
-    0
-	, 3  // @lengthOf(
-
-	,	""{,}"" 
-, 
-""1"" , 00
-    , 
-0123456789	, 
-""// no comment""
-
-]
-
-:  As
-
-,
-} ,},
-    repeat	char[ 10 ] o
-
-`
-` ,
-
-@calculatedFrom( 
-    //
-  ""`tick`"" 	 //x
-      )
-    repeat
-
-crc
-{repeatCount o  ,u8x
-As  ,
-},  }
-
-packet  pack
-    {
-
-@calculatedFrom(""" ++ [233]%N ++ runes_of_ascii "t" ++ [233]%N ++ runes_of_ascii """  )
-    u32
-    f32a  ,
-} MetaData  float {
-u32
-
-    options1
-,
-
-}packet
-	f32a{ } ")).
-Eval vm_compute in ("<<<M70>>>" ++ check (runes_of_ascii "packet pack { @lengthOf(
-Foo
-    // c
-    )
-    asx @lengthOf( _x ) /// triple
-, u8	x_y_z `two words` ,repeat
-    zchar[0
-    ] roots `
-`
-    // `tick` ""quote"" 'q'
-    , lengthOf @calculatedFrom( ""abc""
-) ,
-@tag( 3 ) @rightPad	( ' ')@calculatedFrom(
-""1""
-//x
-// " ++ [27880; 37322]%N ++ runes_of_ascii "
-)
-repeat uint64 i64_ // trailing space 
-`say ""hi""` // @lengthOf(
-,	@tag( 007 ) match roots as float {	""a	b""
-    : lengthOf,
-    [1, // @lengthOf(
-""\n""
-,
-""a\""b"" , ""\" ++ [233]%N ++ runes_of_ascii """ ,  ""1"",
-    42 ]: msg_type, """ ++ [128512]%N ++ runes_of_ascii """: Foo} ,T//x
-{
-    match
-Header
-as trueish
-{ [
-// `tick` ""quote"" 'q'
-// @lengthOf(
-0 , 3// @lengthOf(
-, ""{,}"" ,
-""1"" ,
-00  ,
-0123456789
-,
-    ""// no comment"" ]
-:As
-    , }
-    , } , repeat char[
-    10
-]
-o `
-`
-, @calculatedFrom(
-    //
-    ""`tick`"" //x
-) repeat crc {
-    repeatCount o ,
-    u8x
-As, } ,
-} packet pack{@calculatedFrom( """ ++ [233]%N ++ runes_of_ascii "t" ++ [233]%N ++ runes_of_ascii """ )  u32 f32a
-,
-}
-    MetaData float
-{u32 options1 , }
-packet
-f32a { }
-")).
-Eval vm_compute in ("<<<M362>>>" ++ check (runes_of_ascii "MetaData len
-{i8 _x
-    //	t
-    `` , zchar[ 00 ] tag , roots
-u
-    // `tick` ""quote"" 'q'
-    ,uint16 repeatCount , msg_type tag , } packet x_y_z
-    {
-metadata { i8i8 chars
-,i64
-chars , }
-, repeat u16 asx
-// a // b
-// a // b
-,
-}	packet u8x  { @lengthOf( BodyLength	)	@leftPad(
-// a // b
-//
-)float
-    /// triple
-    `
-` ,
-@calculatedFrom( ""// no comment"" ) float32 // " ++ [128512]%N ++ runes_of_ascii " emoji
-chars`// not a comment` , uint32
-u128 , @tag( 0 )
-int16	tag , leftPad
-    msg_type , // trailing space 
+    BodyLength
+	{
+00	:
 pack
-    `tab	here` ,
-@lengthOf(
-repeatCount
-// c
-// c
-)zchar[ 4294967296 ] len, i32 packetx`tab	here` , calculatedFrom ,metadata @calculatedFrom(
-""// no comment"" ) , } options { // trailing space 
-options1 = 42 ; i64_
-    // a // b
-    = char[] falsey=
+
+,
+
+1 : u
+
+,
+    [
+	255 , 255
+
+    ,
+
+    ""// no comment""]	:
+
+    Packet
+[
+
+    65535
+]
+	:i64_ ,
+
+    }  
+  // @lengthOf(
+	  //
+  , // a // b
+  @calculatedFrom(  // c
+	""" ++ [233]%N ++ runes_of_ascii "t" ++ [233]%N ++ runes_of_ascii """)
+
+string// `tick` ""quote"" 'q'
+	len  `tab	here`  ,@tag(0123456789 )
+repeat 
+  //	t
+	matchKey
+
+A 
+`a\`	,
+i8i8 
+Packet
+
+,
+	stringy @calculatedFrom(  ""x y""	)
+    , 
+f32a 
+As	`crlf
+line` ,
+    u128 {
+
+repeat int	{
+	repeat
+	zchar[255]
+
+    a1
+`{ , }`  , 
+// a // b
+
+  // a // b
+
+  match	calculatedFrom	as body //	t
+		{
+
+    0  // " ++ [27880; 37322]%N ++ runes_of_ascii "
+
+:	body
+
+    42  
+      // c
+  :
+
+    tag	// @lengthOf(
+    , ""1""
+	:
+
+    packetx
+
+    ,	""it's""	:	roots  ,
+} 
+, i32
+u 
+@calculatedFrom(// " ++ [128512]%N ++ runes_of_ascii " emoji
+    ""a\\"" 
+)
+,}
+
+,
+
+    string_ `crlf
+line`
+    , _x
+	, repeat
+lengthOf crc ,	} ,  // " ++ [27880; 37322]%N ++ runes_of_ascii "
+	}
+	MetaData
+
+    rootA
+    {
+
+uint8
+tag,	string Z9_`u8 x,`
+,  f64  float
+	,
+	Logon falsey
+`a\`,  }
+
+    packet
+
+    len	{
+    char[]
+	u`// not a comment`,
+char[]
+	Header	`// not a comment` 
+,
+
+    string  charz
+
+// a // b
+
+/// triple
+	`tab	here` 
+, 
+    //
+  @leftPad 
+
 // packet A { u8 x, }
-//	t
-42 // a // b
-Packet =
-true
-;}
+
+  ( )  @lengthOf(
+
+a1  )
+// " ++ [128512]%N ++ runes_of_ascii " emoji
+	  //x
+	len crc
+
+,
+@leftPad(
+' ' ) Packet @calculatedFrom(
+""" ++ [128512]%N ++ runes_of_ascii """ )
+    ,
+    repeat
+    uint8 a1 ,match	T
+    as
+
+As
+{
+
+    ""packet""
+:
+
+Logon
+    ,
+
+    [  """ ++ [128512]%N ++ runes_of_ascii """ ,
+0
+    ]:i64_,
+[""packet""
+,	7
+]	:  string_, }
+
+    ,repeat //
+      zchar[
+007 ]	zchar
+	`{ , }` , }")).
+Eval vm_compute in ("<<<M43>>>" ++ check (runes_of_ascii "packet asx {
+    leftPad@calculatedFrom( """ ++ [233]%N ++ runes_of_ascii "t" ++ [233]%N ++ runes_of_ascii """ ) , @leftPad
+(  '0')
+    // trailing space 
+    u8x As `crlf
+line` ,char[ 3 ] asx @calculatedFrom( ""{,}"" )  ,
+// @lengthOf(
+// trailing space 
+repeat u128  { int {packetx @calculatedFrom( ""packet"" )
+    ,	match
+T as  T
+{ ""a	b""
+: o , } , zchar[ 00
+    ]lengthOf
+`{ , }` ,
+/// triple
+// trailing space 
+char[] crc @calculatedFrom( ""abc"" )
+, } , Header	@calculatedFrom( """ ++ [233]%N ++ runes_of_ascii "t" ++ [233]%N ++ runes_of_ascii """ )
+`two words` ,
+repeat uint8 uint8x , repeat
+    //
+    char[0123456789 ]float`u8 x,`,} ,
+packetx x `say ""hi""` , @rightPad ( )
+i8i8
+    @calculatedFrom( ""x y""), @leftPad
+    ( ) BodyLength {repeat	int32
+_x ``  , i8 msg_type
+`doc` //
+, }, }
+// `tick` ""quote"" 'q'
+// packet A { u8 x, }
+packet body { }	packet	repeatCount{zchar[  3 ] Packet, @lengthOf( // @lengthOf(
+Header  )
+    i64
+// c
+// c
+Packet `two words` ,
+zchar[ 65535
+]calculatedFrom `tab	here`//	t
+, match x as leftPad
+    { ""// no comment"": rootA
+    , ""`tick`"" :
+o,
+}
+,// " ++ [128512]%N ++ runes_of_ascii " emoji
+zchar[ //	t
+3 ]
+// packet A { u8 x, }
+// " ++ [27880; 37322]%N ++ runes_of_ascii "
+u128 @calculatedFrom( ""{,}"" ) `{ , }`
+    ,
+}
+    //	t
+    options { u = char[ 42 ] // " ++ [27880; 37322]%N ++ runes_of_ascii "
+metadata
+=""a\\""
+;  Logon =
+string ; Z9_ = u16
+;  }
 ")).
-Eval vm_compute in ("<<<M1935>>>" ++ check (runes_of_ascii "root packet As {
+Eval vm_compute in ("<<<M1392>>>" ++ check (runes_of_ascii "options {
+    FixedStringPadFromLeft = true;
+    FixedStringPadChar = '0';
 }
 
-MetaData Pad {
-    string metadata `// not a comment`,
+packet Leg {
+    InPrice0 {
+        repeat string clOrdID,
+        int16 msgKind,
+        zchar[5] Px,
+    },
+    i16 f1,
+    repeat f64 Side2,
+    string Acct,
+}
+
+packet Cancel {
+    zchar[4] clOrdID,
+    string seqNo,
+    Leg,
+    @leftPad('0')
+    char[11] OrderId,
+}
+
+packet Quote {
+    repeat char[4] sym,
+    f64 OrderId,
+    repeat Leg,
+    repeat i64 f1,
+    int16 Note,
+    zchar[3] count,
+}
+
+root packet Ack {
+    @leftPad(' ')
+    char[10] sym,
+    InPx60 {
+        Cancel,
+        repeat char[1] f1,
+        string Tail,
+        repeat InNote55 {
+            int8 count,
+            f64 f1,
+            repeat Cancel,
+        },
+        char[] tag7,
+        repeat string msgKind,
+    },
+    u8 lastPx,
+    match lastPx as Body {
+        152 : Quote,
+        173 : Cancel,
+        4 : Leg,
+    },
+    u16 Ref @calculatedFrom(""CRC32""),
+}")).
+Eval vm_compute in ("<<<M104>>>" ++ check (runes_of_ascii "options{  matchKey = ""x y""
+    ;	MetaDataX
+= '0'
+;
+} packet // c
+msg_type { @rightPad ( ' '  )repeat u128 body	, match body	as /// triple
+pack{ [ ""\" ++ [233]%N ++ runes_of_ascii """ , ""1"" ]: BodyLength
+, [ 255
+, ""a	b"" , ""a\\"" , ""{,}""
+,  007 , 007 ,
+    0123456789
+] : options1	,	} ,@leftPad
+()@lengthOf(charz	)
+@tag(	42
+) o{	i32 msg_type @lengthOf( A )// " ++ [27880; 37322]%N ++ runes_of_ascii "
+`doc` ,zchar[ 1] charz  , // c
+i8 packetx`{ , }`,
+msg_type `crlf
+line`
+    , }	,
+@calculatedFrom( ""\" ++ [233]%N ++ runes_of_ascii """ ) Z9_ @calculatedFrom(
+""" ++ [128512]%N ++ runes_of_ascii """ )`tab	here` ,
+repeat char[] Foo ,
+repeat zchar[ 0123456789]	u128
+, }	packet f32a{
+    f32a @lengthOf( matchKey )//x
+, @rightPad (
+    ' ' // " ++ [27880; 37322]%N ++ runes_of_ascii "
+)@lengthOf( chars ) _x Foo  `` ,  match
+    body // c
+as
+    body
+    {	[4294967296
+    , ""packet"", 3 , """ ++ [128512]%N ++ runes_of_ascii """
+,
+0123456789  ]
+: T [ ""a\\"" ]// `tick` ""quote"" 'q'
+: T
+, ""\n""
+:
+u8x , }
+//	t
+//x
+,} //x
+root packet lengthOf
+{ }
+")).
+Eval vm_compute in ("<<<M1761>>>" ++ check (runes_of_ascii "MetaData x {
+    len crc,
+    float asx,
+    i32 uint8x `line1
+    line2`,
+    u16 tag `it's`,
+    As string_,
 }
 
 packet metadata {
-    string charz `a\`,
-    @leftPad(' ')
-    pack @lengthOf(x_y_z),
-    @calculatedFrom(""packet"")
-    match crc as chars {
-        [""packet"", 7] : repeatCount,
-    },
-    Pad @lengthOf(matchKey),
-    @calculatedFrom(""\n"")
-    int64 Z9_ @lengthOf(_x),
-    @lengthOf(repeatCount)
-    repeat float {
-        u128 @lengthOf(zchar),
-        u8 crc,
-    },
-    int64 pack,
-    u128 `it's`,
-    repeat i32 T,//	t
-    @tag(00)
-    rootA @lengthOf(float),
-}
-
-MetaData Header {
-    u32 u,
-    string A `crlf
-    line`,
-    u16 roots `a\`,
-    int16 chars,
-}
-
-packet repeatCount {
-    repeat char[65535] x `line1
-    line2`,
-}")).
-Eval vm_compute in ("<<<M1548>>>" ++ check (runes_of_ascii "MetaData packetx {
-    zchar[7] leftPad `// not a comment`,
-}
-
-packet i64_ {
-    @calculatedFrom("""")
-    // trailing space 
+    @lengthOf(zchar)
     // c
-    @lengthOf(x_y_z)
-    @tag(00)
-    repeatCount @calculatedFrom(""1""),
+    i64_ @calculatedFrom(""\" ++ [233]%N ++ runes_of_ascii """),//x
+    @leftPad('\x00')
+    zchar[10] zchar,
+    lengthOf string_,
+    int @lengthOf(pack),
+    zchar[00] Foo,
+    @lengthOf(packetx)
+    @leftPad('\x00')
+    @calculatedFrom(""x y"")
+    uint16 len @calculatedFrom("""") `two words`,
+    int8 metadata @lengthOf(Foo) `two words`,// @lengthOf(
 }
 
-packet falsey {
-    int16 _x @calculatedFrom(""it's""),
-}// @lengthOf(
-
-root packet matchKey {
-    repeat u32 Pad `" ++ [233]%N ++ runes_of_ascii "`,
-    zchar[7] leftPad,
-    match chars as lengthOf {
-        1 : o,
-        42 : chars,
-    },
-    repeat zchar[255] a1,
-    matchKey Packet,
-    f32 tag,
-    // @lengthOf(
-    // trailing space 
-    @calculatedFrom(""a\""b"")
-    @leftPad(' ')
-    @lengthOf(T)
-    stringy @lengthOf(o),
-    packetx i64_,
+options {
 }
-/// triple")).
-Eval vm_compute in ("<<<M1801>>>" ++ check (runes_of_ascii "
-options{ LittleEndian=
-    false
 
-; ArrayPrefixLenType =	u8 ; 
-FixedStringPadFromLeft
-	=
-    true;	FixedStringPadChar =	'0'
-
-;} packet	Heartbeat
-    {	string
-lastPx
-, uint8
-Qty
-    ,	i64
-	Acct,
-    char[4
-] Ref
-,  } packet  Fill
-	{
-uint8	Ref ,
-
-    Heartbeat
-
-,
-
-    f32 OrderId , repeat f32 x
-,
-	} root packet  Order
-{
-
-zchar[
-2	] 
-OrderId,
-zchar[ 2	] Acct 
-,
-zchar[
-	1
+packet pack {
+    // `tick` ""quote"" 'q'
+    //
+    f64 o,
+    T BodyLength,
+    repeat uint8 chars `" ++ [233]%N ++ runes_of_ascii "`,
+    repeat Logon u,
+    @tag(0123456789)
+    char[] repeatCount @lengthOf(_x) `
+    `,//
+    @tag(7)
+    repeatCount @calculatedFrom(""packet"") `{ , }`,
+}")).
+Eval vm_compute in ("<<<M1361>>>" ++ check (runes_of_ascii "options {
+    // c1
+LittleEndian // c2
+= false ;
+    // c5
+StringPrefixLenType // c6a
+  // c6b
+= // c7a
+  // c7b
+u16
+    // c8
+; // c9a
+  // c9b
+}
+    // c10
+packet Heartbeat // c12
+{ @rightPad // c14a
+  // c14b
+( // c15
+'0' )
+    // c17
+char[ // c18
+7 // c19a
+  // c19b
 ]
-
-    Note
-	,zchar[9  ] Qty
-	,
-    string
-    price, string	tag7,
-	u32
-    x ,
-
-match
-x as
-Body	{ 123: 
-Fill
-
-,112:	Heartbeat
-	, }
-
-,u32
-	seqNo	@calculatedFrom(
-
-    ""CR\
-C32""
-    ) 
-,}
+    // c20
+seqNo , uint64 Tail
+    // c24
+, // c25a
+  // c25b
+i16 Flags // c27a
+  // c27b
+, // c28
+u16 // c29a
+  // c29b
+msgKind , // c31a
+  // c31b
+} root // c33a
+  // c33b
+packet Reject
+    // c35
+{ // c36
+zchar[ 3 // c38a
+  // c38b
+] tag7 // c40a
+  // c40b
+, // c41
+repeat // c42
+Heartbeat
+    // c43
+, // c44
+repeat string // c46
+clOrdID // c47a
+  // c47b
+, // c48a
+  // c48b
+} // c49a
+  // c49b
 ")).
-Eval vm_compute in ("<<<M1678>>>" ++ check (runes_of_ascii "
-MetaData
+Eval vm_compute in ("<<<M247>>>" ++ check (runes_of_ascii "
+options { leftPad // packet A { u8 x, }
+= 0
+;
+    //
+    Logon
+    =
+char // `tick` ""quote"" 'q'
+i64_ = '\x00'
+; }
+options { crc =
+i32	; matchKey =
+255
+    leftPad = ' ' ; metadata= 42// trailing space 
+; packetx =10
+    }
+root packet//
+A { @calculatedFrom( ""x y"" // c
+)/// triple
+zchar[ 00]
+f32a, @tag(
+255 )
+    zchar[
+0123456789 ]	a1
+@lengthOf(As )`" ++ [28040; 24687; 31867; 22411]%N ++ runes_of_ascii "`
+    /// triple
+    , int16 body, // `tick` ""quote"" 'q'
+uint64
+x
+@calculatedFrom(""1""
+//	t
+// " ++ [128512]%N ++ runes_of_ascii " emoji
+) // packet A { u8 x, }
+`line1
+line2` ,@lengthOf( Logon )char[
+    0// packet A { u8 x, }
+]float@calculatedFrom(
+""abc"" ) ,
+} MetaData u128 { }
+")).
+Eval vm_compute in ("<<<M1121>>>" ++ check (runes_of_ascii "// top
+root // c0
+packet // c1
+_x
+    // c2
+{ match
+    // c4
+Foo // c5
+as // c6a
+  // c6b
+Z9_ {
+    // c8
+""a	b"" // c9a
+  // c9b
+: // c10
+Pad // c11
+,
+    // c12
+} , // c14
+repeat // c15a
+  // c15b
+x `line1
+line2`
+    // c17
+, // c18
+@rightPad // c19a
+  // c19b
+(
+    // c20
+' ' // c21
+) // c22
+@calculatedFrom( ""a\\""
+    // c24
+) // c25a
+  // c25b
+metadata MetaDataX
+    // c27
+, @tag(
+    // c29
+0 ) // c31
+Logon int
+    // c33
+``
+    // c34
+,
+    // c35
+} // c36
+options // c37
+{
+    // c38
+T // c39
+= // c40a
+  // c40b
+'\x00' } // c42a
+  // c42b
+")).
+Eval vm_compute in ("<<<M1727>>>" ++ check (runes_of_ascii "packet leftPad {
+    @rightPad()
+    repeat chars {
+        crc pack,
+    },
+    @calculatedFrom(""" ++ [28040; 24687]%N ++ runes_of_ascii """)
+    @lengthOf(options1)
+    @tag(65535)
+    Foo,
+    match matchKey as tag {
+        // c
+        [
+            ""{,}"", """", ""`tick`"", 3, ""it's"",
+            """ ++ [128512]%N ++ runes_of_ascii """, ""it's""
+        ] : As,
+        [""x y""] : chars,
+        """ ++ [233]%N ++ runes_of_ascii "t" ++ [233]%N ++ runes_of_ascii """ : uint8x,
+        4294967296 : packetx,
+        ""// no comment"" : calculatedFrom,
+    },
+    @calculatedFrom(""// no comment"")
+    char[007] f32a,
+}// a // b")).
+Eval vm_compute in ("<<<M180>>>" ++ check (runes_of_ascii "options
+    // @lengthOf(
+    {}
+packet charz { @rightPad (  ' ') @calculatedFrom(
+    ""a\\"" ) repeat int	crc `two words` , string stringy
+    @calculatedFrom( ""a	b""
+    // " ++ [128512]%N ++ runes_of_ascii " emoji
+    )`// not a comment`	,//
+char i8i8,
+}  MetaData	crc {// `tick` ""quote"" 'q'
+crc i64_`{ , }`
+,
+    // `tick` ""quote"" 'q'
+    i32// c
+u128 ,// packet A { u8 x, }
+BodyLength Header
+    ,char[ 0123456789]
+/// triple
+//
+Packet `u8 x,`
+, uint8 repeatCount , //	t
+}")).
+Eval vm_compute in ("<<<M1331>>>" ++ check (runes_of_ascii "packet	Frame
 
-falsey {	} 
-root
-	packet  // `tick` ""quote"" 'q'
-o 
-{ @tag( 3 // " ++ [128512]%N ++ runes_of_ascii " emoji
-	)@calculatedFrom(
+{  u8 HK 
+,  u8
 
-""""
+BK, u8
+    TK
+,match 
+HK as
 
-)
-    @lengthOf( pack
-    )char[65535 ] 
-falsey @lengthOf( falsey )  ,
+Hdr
+{	1
 
+    :
+    HdrA 
+,
+
+2 : HdrB
+, },	match	BK
+as
+
+Body{  1	:
+
+    BodyA ,  2
+:
+
+    BodyB 
+,}
+	, 
+match
+
+    TK as Trl {
+	1 : TrlA
+
+,} , } packet HdrA { u8 a  ,
+}packet
+    HdrB 
+{ 
+u16
+    b
+	,  }packet BodyA{ u32 c ,
+}packet
+    BodyB
+	{
+
+    u64
+d , }
+    packet
+TrlA  {  u8
+e,} root
+	packet
+Msg
+
+{ Frame
+,
+    u8
+
+x,} ")).
+Eval vm_compute in ("<<<M1671>>>" ++ check (runes_of_ascii "packet a1 
+{@leftPad
+(
+)	float @lengthOf(
+uint8x) 
+,
+
+    } 
+packet	Logon {
+
+    char	Logon@calculatedFrom( ""a\\"" 
+)	, T
+
+    stringy  ,
+    //
+// c
+  repeat
+uint8
+stringy	`two words`	,}
+
+MetaData  charz{
+
+    u  tag
+`
+`	,	a1
+	falsey , //x
+
+Z9_ matchKey
+,
+f64
+lengthOf
+`a\`// @lengthOf(
+	,f32a roots
+
+    `` ,
+	float64 
+x_y_z// @lengthOf(
+  , } ")).
+Eval vm_compute in ("<<<M30>>>" ++ check (runes_of_ascii "packet
+repeatCount
+    {@calculatedFrom(	""abc"" ) zchar[
+    // @lengthOf(
+    0
+] // `tick` ""quote"" 'q'
+MetaDataX  `
+`	, string_
+@calculatedFrom( ""1""
+    ) ,	match string_
+    as msg_type{ [// a // b
+65535	,// a // b
+""a	b""
+    , 7
+    ,	255 ]:
+matchKey , 10 :
+    options1 , 3 :Logon
+    , } ,
+    // " ++ [27880; 37322]%N ++ runes_of_ascii "
+    packetx `a\` ,}
+")).
+Eval vm_compute in ("<<<M81>>>" ++ check (runes_of_ascii "root packet o {
+} MetaData uint8x
+    { int64 rootA  ,}
+    MetaData
+As{i32 // packet A { u8 x, }
+chars,	}packet Z9_// trailing space 
+{
+@leftPad( )char[]	x_y_z,} packet tag {	@leftPad(
+// " ++ [128512]%N ++ runes_of_ascii " emoji
+// " ++ [27880; 37322]%N ++ runes_of_ascii "
+' '
+    )
+zchar[ 0 // `tick` ""quote"" 'q'
+] rootA @calculatedFrom(
+    ""a\\"" )
+    `tab	here`
+,}")).
+Eval vm_compute in ("<<<M1314>>>" ++ check (runes_of_ascii "packet MDSnapshotZZ {
+    u8 a,
+}
+packet OrderACK {
+    u16 b,
+}
+packet HTTPServerInfo {
+    string s,
+}
+root packet FIXMsg {
+    u8 KType,
+    MDSnapshotZZ,
+    repeat OrderACK,
+    match KType as Body {
+        1 : HTTPServerInfo,
+        2 : OrderACK,
+    },
+}
+")).
+Eval vm_compute in ("<<<M1313>>>" ++ check (runes_of_ascii "options	{ FixedStringPadChar
+=
+
+'0';  }packet
+Q
+{ zchar[4  ]
+
+z
+	, @rightPad  ('\x00'  )
+
+    char[ 
+3
+]
+n , char[
+    5 ]  d,
 }
 
     root
-
-packet  roots
-    {  @lengthOf(  chars )
-match
-
-    Logon
-as chars	{
-""`tick`"": 
-charz  
-  // packet A { u8 x, }
-""a\\"" :
-
-Z9_
-
-007
-	:
-trueish
-""CRC32""
-:
-	msg_type
-	,  [ 3 , 3 // `tick` ""quote"" 'q'
-      ,	00 ,	4294967296 ,
-
-0 ,	7
-, //
-  ""x y""
-
-,""\" ++ [233]%N ++ runes_of_ascii """ 
-    //	t
-	] 
-:  metadata
-
-    ,
-""a	b""
-//x
-  // " ++ [27880; 37322]%N ++ runes_of_ascii "
-: crc}
-	, }")).
-Eval vm_compute in ("<<<M1681>>>" ++ check (runes_of_ascii "options
-    {	// c1a
-
-  // c1b
-	LittleEndian  
-  // c2
-  = 	 // c3
-	true  // c4
-
-  ; }	// c6a
-		// c6b
-  packet
-
-    B
-	{  u8	// c10a
-// c10b
-a 
-      // c11
-  , // c12a
-// c12b
-	string	// c13
-s  // c14
-
-,
-	}	// c16
-  root // c17a
-    // c17b
-      packet
-
-// c18
-    P  // c19
-    {
-
-u16 // c21
-	L @lengthOf(
-    B
-)// c25a
-	// c25b
-
-,  // c26a
-
-// c26b
-B  // c27a
-	// c27b
-, 
-  // c28
-		u8 
-  // c29
-    t 	 // c30
-		, // c31
-
-  }	// c32a
-  // c32b")).
-Eval vm_compute in ("<<<M374>>>" ++ check (runes_of_ascii "MetaData BodyLength { zchar[ 65535 ]	As `crlf
-line`
-, u16 charz , body len,
-zchar msg_type ,uint64 metadata
-,}
-root packet //
-matchKey
-    {
-repeat i8i8  `{ , }` ,
-} MetaData a1 { i8i8 Pad`it's`	,
-// trailing space 
-// `tick` ""quote"" 'q'
-int64
-    // " ++ [128512]%N ++ runes_of_ascii " emoji
-    roots `doc` ,
-Foo BodyLength `u8 x,` , } packet	_x
-{ lengthOf
-    {
-pack `" ++ [28040; 24687; 31867; 22411]%N ++ runes_of_ascii "` ,
-string_ // @lengthOf(
-, repeat //
-rootA len , zchar[ 1
-] u8x,} , }
-")).
-Eval vm_compute in ("<<<M1139>>>" ++ check (runes_of_ascii "// top
-MetaData
-    // c0
-leftPad
-    // c1
-{
-    // c2
-chars
-    // c3
-MetaDataX
-    // c4
-,
-    // c5
-}
-    // c6
 packet
-    // c7
-repeatCount
-    // c8
+R
+
 {
-    // c9
-char[
-    // c10
-255
-    // c11
+
+    Q 
+, zchar[8 
+]top
+
+    ,	repeat zchar[	2
 ]
-    // c12
-uint8x
-    // c13
-`" ++ [233]%N ++ runes_of_ascii "`
-    // c14
-,
-    // c15
-}
-    // c16
-MetaData
-    // c17
-pack
-    // c18
-{
-    // c19
-As
-    // c20
-Foo
-    // c21
-,
-    // c22
-}
-    // c23
-")).
-Eval vm_compute in ("<<<M1337>>>" ++ check (runes_of_ascii "options 
-{
+	zs
 
-LittleEndian	=
-
-    true
-; StringPrefixLenType
-=
-u16 ;
-FixedStringPadChar
-	=
-' ' 
-; } packet
-Logon
-{
-
-@leftPad	( '0') char[ 10 ]
-
-tag7
-	,
-}
-root packet
-
-    Ack	{ int32
-Px ,uint16	count ,
-
-string Qty	,
-    string
-    OrderId 
-,string
-Flags, u8
-    x	,  match
-x
-	as
-    Body{
-[	58
-,  169  ] :	Logon
-, } 
-, } ")).
-Eval vm_compute in ("<<<M1310>>>" ++ check (runes_of_ascii "
-packet
-A
-	{
-
-u8 a
-	, } packet
-    B 
-{ u16 b
-,
-	} packet
-    C 
-{	u32 
-c,
-
-}
-	root
-    packet
-
-    M
-	{u16
-
-    Kc ,
-u16 Kb
-	, u16
-    Ka
-
-,
-match  Kc
-
-    as
-X
-	{9
-:A
-
-    ,
-10
-:B  , } ,match	Kb  as
-Y{	2
-: C
-,  1 :A
-
-,
-
-} ,  match	Ka
-    as
-Z {
-1 :
-B	, 
-}, A 
-,B
-, C
-,
-
-    }")).
-Eval vm_compute in ("<<<M1680>>>" ++ check (runes_of_ascii "// top
-options {
-    // c1
-    f32a = 0
-    // c4
-}
-
-// c5
-packet trueish {
-    // c8
-}
-
-// c9
-MetaData _x {
-    // c12
-    char[0123456789] zchar,
-    // c17
-    string crc,
-    // c20
-    char[1] options1,
-    // c25
-    uint8 repeatCount,
-    // c28
-}
-// c29")).
-Eval vm_compute in ("<<<M1247>>>" ++ check (runes_of_ascii "options { LittleEndian // c2a
-  // c2b
-= // c3
-true
-    // c4
-; } root
-    // c7
-packet P // c9a
-  // c9b
-{ repeat char // c12a
-  // c12b
-cs // c13a
-  // c13b
-, // c14a
-  // c14b
-u8
-    // c15
-x
-    // c16
-, // c17
-}
-    // c18
-")).
-Eval vm_compute in ("<<<M1421>>>" ++ check (runes_of_ascii "root packet int {
-    f32a @calculatedFrom(""packet"") `
-    `,
-}
-
-options {
-    rootA = ""\" ++ [233]%N ++ runes_of_ascii """;
-}
-
-packet i8i8 {
-    // trailing space 
-    uint8 uint8x @lengthOf(string_),
-    i32 tag @lengthOf(Logon),
+    , 
 }")).
-Eval vm_compute in ("<<<M309>>>" ++ check (runes_of_ascii "packet
-    // `tick` ""quote"" 'q'
-    _x {//
-repeat zchar[ 1 ] metadata
-    ,@leftPad
-    ( ' ' ) @lengthOf( T )@lengthOf(
-Z9_ )
-    char[] As// @lengthOf(
-,string f32a  , }
-")).
-Eval vm_compute in ("<<<M1398>>>" ++ check (runes_of_ascii "
-
-  packet 
-A {
-
-    match
-
-    k
-    as n
-
-    {
-	[  ""a""
-
+Eval vm_compute in ("<<<M249>>>" ++ check (runes_of_ascii "
+packet
+rootA {
+} // trailing space 
+packet f32a //	t
+{ match
+zchar as zchar
+    {	65535 : f32a , 7 : charz// trailing space 
 ,
-22 ,
-
-""c c""
-
-,
-    4, ""e""
-
-, 66 
-,
-    ""g""
-
-,
-    8  ,""i""
-
-    ]
-: B
-
-    2:
-
-C
-} 
+""{,}""
+//	t
+//x
+: Header , 42
+    :a1 // packet A { u8 x, }
+, }
 , }
 ")).
-Eval vm_compute in ("<<<M518>>>" ++ check (runes_of_ascii "packet uint8x
-{ match pack
-    as msg_type	{
-    0123456789 :	float
-}
-,
-} packet //	t
-a1
-    { } options {packetx
-    = '\x00'	; u128 true ""a	b""  ; }
-")).
-Eval vm_compute in ("<<<M526>>>" ++ check (runes_of_ascii "packet uint8x
-{ match pack
-    as msg_type	{
-    0123456789 :	float
-}
-,
-} packet //	t
-a1
-    { } options {packetx
-    = '\x00'	; u128= ""a	b""  ; ; }
-")).
-Eval vm_compute in ("<<<M428>>>" ++ check (runes_of_ascii "packet uint8x
-{ match pack
-    as msg_type	}
-    0123456789 :	float
-}
-,
-} packet //	t
-a1
-    { } options {packetx
-    = '\x00'	; u128= ""a	b""  ; }
-")).
-Eval vm_compute in ("<<<M450>>>" ++ check (runes_of_ascii "packet uint8x
-{ match pack
-    as msg_type	{
-    0123456789 :	float
-}
+Eval vm_compute in ("<<<M1875>>>" ++ check (runes_of_ascii "// top
+packet B {
+    // c2
+    u8 a,
+}// c6
 
+root packet P {
+    // c10
+    u8 K,// c13
+    u8 L @lengthOf(Body),
+    match K as Body {
+        1 : B,
+    },
+    // c30
+}
+// c31")).
+Eval vm_compute in ("<<<M283>>>" ++ check (runes_of_ascii "
+root packet /// triple
+u8x {}options { o =	zchar[ 1 ]
+    Packet
+    // trailing space 
+    =u32 ; uint8x =""a\\"";
+    /// triple
+    u8x
+=0
+;
+    crc =""\n"" ; }")).
+Eval vm_compute in ("<<<M443>>>" ++ check (runes_of_ascii "packet uint8x
+{ match pack
+    as msg_type	{
+    0123456789 :	@lengthOf(
+}
+,
 } packet //	t
 a1
     { } options {packetx
     = '\x00'	; u128= ""a	b""  ; }
 ")).
-Eval vm_compute in ("<<<M493>>>" ++ check (runes_of_ascii "packet uint8x
+Eval vm_compute in ("<<<M488>>>" ++ check (runes_of_ascii "packet uint8x
 { match pack
     as msg_type	{
     0123456789 :	float
@@ -1100,59 +850,89 @@ Eval vm_compute in ("<<<M493>>>" ++ check (runes_of_ascii "packet uint8x
 ,
 } packet //	t
 a1
-    { } options {f64
+    { } options i8 packetx
     = '\x00'	; u128= ""a	b""  ; }
 ")).
-Eval vm_compute in ("<<<M664>>>" ++ check (runes_of_ascii "// @lengthOf(
+Eval vm_compute in ("<<<M412>>>" ++ check (runes_of_ascii "packet uint8x
+{ match as
+    pack msg_type	{
+    0123456789 :	float
+}
+,
+} packet //	t
+a1
+    { } options {packetx
+    = '\x00'	; u128= ""a	b""  ; }
+")).
+Eval vm_compute in ("<<<M435>>>" ++ check (runes_of_ascii "packet uint8x
+{ match pack
+    as msg_type	{
+    0123456789 	float
+}
+,
+} packet //	t
+a1
+    { } options {packetx
+    = '\x00'	; u128= ""a	b""  ; }
+")).
+Eval vm_compute in ("<<<M1531>>>" ++ check (runes_of_ascii "
+packet B 
+{u8  a,  } 
+root
+packet
+
+    P{
+
+    u8
+K
+
+    ,  match
+K
+as
+    Body
+	{
+
+    1 :
+
+B 
+,} ,u16 
+L@lengthOf(
+    Body  )
+,	}
+")).
+Eval vm_compute in ("<<<M551>>>" ++ check (runes_of_ascii "packet uint8x
+{ match pack
+    as " ++ [21517; 23383]%N ++ runes_of_ascii "	{
+    0123456789 :	float
+}
+,
+} packet //	t
+a1
+    { } options {packetx
+    = '\x00'	; u128= ""a	b""  ; }
+")).
+Eval vm_compute in ("<<<M420>>>" ++ check (runes_of_ascii "packet uint8x
+{ match pack
+    as 	{
+    0123456789 :	float
+}
+,
+} packet //	t
+a1
+    { } options {packetx
+    = '\x00'	; u128= ""a	b""  ; }
+")).
+Eval vm_compute in ("<<<M697>>>" ++ check (runes_of_ascii "// @lengthOf(
 packet i8i8 { u128 o , }
-options { MetaDataX = true;
-    BodyLength =""packet"" packet= 007
-crc //x
-= ""abc"" ;
-    msg_type =
-i16 }")).
-Eval vm_compute in ("<<<M699>>>" ++ check (runes_of_ascii "// @lengthOf(
-packet i8i8 { a" ++ [769]%N ++ runes_of_ascii "b o , }
-options { MetaDataX = true;
+, { MetaDataX = true;
     BodyLength =""packet"" x_y_z= 007
 crc //x
 = ""abc"" ;
     msg_type =
 i16 }")).
-Eval vm_compute in ("<<<M1831>>>" ++ check (runes_of_ascii "  packet
-    A
-    {
-
-match 
-k as
-    n
-{
-
-[ ""a""  ,
-
-""bb""
-    ,
-	007
-
-    , ""d""
-	,
-""e""
-,66
-,	""g""
-
-,
-""h"" ]
-
-    :
-B
-
-, 2
-:C }
-, }
-")).
-Eval vm_compute in ("<<<M1450>>>" ++ check (runes_of_ascii "MetaData leftPad {
+Eval vm_compute in ("<<<M1395>>>" ++ check (runes_of_ascii "MetaData leftPad {
+    chars MetaDataX,
     // c
-    chars MetaDataX,
 }
 
 packet repeatCount {
@@ -1162,180 +942,232 @@ packet repeatCount {
 MetaData pack {
     As Foo,
 }")).
-Eval vm_compute in ("<<<M1390>>>" ++ check (runes_of_ascii "MetaData leftPad {
-    chars MetaDataX,
-}
-
-packet repeatCount {
-    char[255] uint8x `" ++ [233]%N ++ runes_of_ascii "`,
-}
-
-MetaData pack {
-    As Foo,
-}")).
-Eval vm_compute in ("<<<M1153>>>" ++ check (runes_of_ascii "MetaData leftPad { chars MetaDataX , // c
-} packet repeatCount { char[ 255 ] uint8x `" ++ [233]%N ++ runes_of_ascii "` , } MetaData pack { As Foo , }")).
-Eval vm_compute in ("<<<M1185>>>" ++ check (runes_of_ascii "MetaData leftPad { chars MetaDataX , } packet repeatCount { char[ 255 ] uint8x `" ++ [233]%N ++ runes_of_ascii "` , } MetaData pack { As Foo // c
-, }")).
-Eval vm_compute in ("<<<M914>>>" ++ check (runes_of_ascii "packet A {
-  match k as n {
-    [""a"", ""bb"", 007, ""d"", ""e"", 66, ""g"", ""h"", 9, ""j"", ""k"", 12] : B,
-    2 : C
-  },
-}")).
-Eval vm_compute in ("<<<M1400>>>" ++ check (runes_of_ascii "packet A
-	{
-	match	k
-
-as n{[  ""a""  , ""bb"" ,
-	""c c""
-,
-""d""	,""e"",
-
-""f""
-,
-""g""
-] : 
-B
-
-,
-2 : C
-}
-,
-
-    }")).
-Eval vm_compute in ("<<<M1902>>>" ++ check (runes_of_ascii "
-root
-
-    packet
-SimpleMessage {uint16	MsgType
-	`" ++ [28040; 24687; 31867; 22411]%N ++ runes_of_ascii "`
-,string
-	JsonBody`Json" ++ [23383; 31526; 20018; 28040; 24687; 20307]%N ++ runes_of_ascii "`
-
-,
-
-    }")).
-Eval vm_compute in ("<<<M855>>>" ++ check (runes_of_ascii "packet A {
-  match k as n {
-    [""a"", ""bb"", ""c c"", ""d"", ""e"", ""f"", ""g"", ""h""] : B
-    2 : C
-  },
-}")).
-Eval vm_compute in ("<<<M1559>>>" ++ check (runes_of_ascii "packet A {
-    match k as n {
-        [""a"", ""bb"", 007, ""d"", ""e""] : B,
-        2 : C,
+Eval vm_compute in ("<<<M1514>>>" ++ check (runes_of_ascii "packet A {
+    Inner {
+        u8 x `a
+        b`,
+        Deep {
+            u8 y `a
+            b`,
+        },
     },
 }")).
-Eval vm_compute in ("<<<M631>>>" ++ check (runes_of_ascii "
+Eval vm_compute in ("<<<M1148>>>" ++ check (runes_of_ascii "MetaData leftPad {
+// c
+chars MetaDataX , } packet repeatCount { char[ 255 ] uint8x `" ++ [233]%N ++ runes_of_ascii "` , } MetaData pack { As Foo , }")).
+Eval vm_compute in ("<<<M1180>>>" ++ check (runes_of_ascii "MetaData leftPad { chars MetaDataX , } packet repeatCount { char[ 255 ] uint8x `" ++ [233]%N ++ runes_of_ascii "` , } MetaData pack
+// c
+{ As Foo , }")).
+Eval vm_compute in ("<<<M1828>>>" ++ check (runes_of_ascii "  packet
+
+A
+{ Inner 
+{ 
+match
+
+k
+    as n {
+    [1
+,
+    22
+, 
+007
+, 4
+,
+	5  ,66 , 7
+
+    ]:B
+
+, }
+,
+},
+
+}
+
+")).
+Eval vm_compute in ("<<<M1269>>>" ++ check (runes_of_ascii "  packet	B
+{
+u8 a , 
+string	s
+	,
+    }
+    root
+	packet P
+
+{ u16
+
+L @lengthOf( B ), B
+    , 
+u8  t ,
+}
+")).
+Eval vm_compute in ("<<<M895>>>" ++ check (runes_of_ascii "packet A {
+  match k as n {
+    [1, ""bb"", 007, ""d"", 5, ""f"", 7, ""h"", 9, ""j"", 11] : B,
+    2 : C
+  },
+}")).
+Eval vm_compute in ("<<<M1840>>>" ++ check (runes_of_ascii "
+
+  packet
+
+    A
+
+{ @leftPad(
+	) char[4
+
+    ]	x 
+,  @rightPad (
+) zchar[
+
+2
+    ] y
+,
+	}
+")).
+Eval vm_compute in ("<<<M630>>>" ++ check (runes_of_ascii "
+packet
+    a@tagsx {match u128 as lengthOf
+{
+//	t
+// `tick` ""quote"" 'q'
+255 : x ,
+    } ,	}")).
+Eval vm_compute in ("<<<M682>>>" ++ check (runes_of_ascii "// @lengthOf(
+packet i8i8 { u128 o , }
+options { MetaDataX = true;
+    BodyLength =""packet""")).
+Eval vm_compute in ("<<<M604>>>" ++ check (runes_of_ascii "
 packet
     asx {match u128 as lengthOf
 {
 //	t
 // `tick` ""quote"" 'q'
-255 %: x ,
+255 : , x
     } ,	}")).
-Eval vm_compute in ("<<<M878>>>" ++ check (runes_of_ascii "packet A {
+Eval vm_compute in ("<<<M936>>>" ++ check (runes_of_ascii "packet A {
+    B b `a
+    b
+  c`,
+    B `a
+    b
+  c`,
+    repeat B bs `a
+    b
+  c`,
+}")).
+Eval vm_compute in ("<<<M1555>>>" ++ check (runes_of_ascii "packet 
+Inner
+    {
+u8 
+a
+, }
+	root  packet P 
+{  Inner
+
+    ref_obj	, u8	x  ,}
+")).
+Eval vm_compute in ("<<<M1453>>>" ++ check (runes_of_ascii "packet
+    A{
+
+    match
+k
+    as
+
+n{ 
+1 :
+	B	// a
+    // b
+  2
+: 
+C }
+,  }
+
+")).
+Eval vm_compute in ("<<<M817>>>" ++ check (runes_of_ascii "packet A {
   match k as n {
-    [1, 22, 007, 4, 5, 66, 7, 8, 9, 10] : B,
+    [1, ""bb"", 007, ""d"", 5] : B,
     2 : C
   },
 }")).
-Eval vm_compute in ("<<<M1404>>>" ++ check (runes_of_ascii "packet A {
-    match k as n {
-        [""a"", 22, ""c c"", 4] : B,
-        2 : C,
-    },
+Eval vm_compute in ("<<<M813>>>" ++ check (runes_of_ascii "packet A {
+  match k as n {
+    [1, 22, 007, 4, 5] : B,
+    2 : C
+  },
 }")).
-Eval vm_compute in ("<<<M469>>>" ++ check (runes_of_ascii "packet uint8x
+Eval vm_compute in ("<<<M796>>>" ++ check (runes_of_ascii "packet A {
+  match k as n {
+    [1, 22, ""c c""] : B
+    2 : C
+  },
+}")).
+Eval vm_compute in ("<<<M444>>>" ++ check (runes_of_ascii "packet uint8x
 { match pack
     as msg_type	{
-    0123456789 :	float
-}
-,
-} packet")).
-Eval vm_compute in ("<<<M835>>>" ++ check (runes_of_ascii "packet A {
-  match k as n {
-    [1, 22, ""c c"", 4, 5, ""f""] : B
-    2 : C
-  },
+    0123456789 :")).
+Eval vm_compute in ("<<<M1089>>>" ++ check (runes_of_ascii "packet A { // a
+ @tag(1) u8 x, // b
+ // c
+ @tag(2) u8 y, }")).
+Eval vm_compute in ("<<<M1552>>>" ++ check (runes_of_ascii "options {
+    Logon = """ ++ [28040; 24687]%N ++ runes_of_ascii """;
+    BodyLength = false;
 }")).
-Eval vm_compute in ("<<<M1249>>>" ++ check (runes_of_ascii "packet Inner {
-    u8 a,
-}
-root packet P {
-    Inner ref_obj,
-    u8 x,
-}
+Eval vm_compute in ("<<<M1504>>>" ++ check (runes_of_ascii "MetaData M {
+    u8 x `
+    x`,
+    T t `
+    x`,
+}")).
+Eval vm_compute in ("<<<M968>>>" ++ check (runes_of_ascii "options {
+    a = ""x\
+y"";
+    b = ""x\
+y""
+}")).
+Eval vm_compute in ("<<<M1726>>>" ++ check (runes_of_ascii "
+root packet
+    A
+	{ 
+u8 x`tab
+	x`, }
 ")).
-Eval vm_compute in ("<<<M797>>>" ++ check (runes_of_ascii "packet A {
-  match k as n {
-    [""a"", ""bb"", 007] : B,
-    2 : C
-  },
-}")).
-Eval vm_compute in ("<<<M1671>>>" ++ check (runes_of_ascii "root packet P {
-    u16 a,
-    u32 Sum @calculatedFrom(""CRC32""),
-}")).
-Eval vm_compute in ("<<<M939>>>" ++ check (runes_of_ascii "MetaData M {
-    u8 x `a
-    b
-  c`,
-    T t `a
-    b
-  c`,
-}")).
-Eval vm_compute in ("<<<M1097>>>" ++ check (runes_of_ascii "packet A {
-    match k as n {
-        1 : B,// c
-    },
-}")).
-Eval vm_compute in ("<<<M1197>>>" ++ check (runes_of_ascii "// c
-packet body { i32 f32a `{ , }` , } options { }")).
-Eval vm_compute in ("<<<M1710>>>" ++ check (runes_of_ascii "  options
-{ a
-    =
-
-1 // c
-	b =2 ; 	 // d
-    }
-")).
-Eval vm_compute in ("<<<M233>>>" ++ check (runes_of_ascii "MetaData _x { i64 u128	, Packet Header, } 	 ")).
-Eval vm_compute in ("<<<M1451>>>" ++ check (runes_of_ascii "packet	A  {@tag(	// a
-    	1)
-u8 x
-	,
-} ")).
-Eval vm_compute in ("<<<M1573>>>" ++ check (runes_of_ascii "// top
-packet x {
-    // c2
+Eval vm_compute in ("<<<M200>>>" ++ check (runes_of_ascii "options {
+options1 =
+    ' ' ;
 }
-// c3")).
-Eval vm_compute in ("<<<M766>>>" ++ check (runes_of_ascii "Dr1UAAa-*U|u3S?xE-Vr&9^'H>gI<.E")).
-Eval vm_compute in ("<<<M1936>>>" ++ check (runes_of_ascii "
 
-  MetaData 
+")).
+Eval vm_compute in ("<<<M1558>>>" ++ check (runes_of_ascii "packet A {
+    u8 x `d" ++ [8192]%N ++ runes_of_ascii "`,// c" ++ [8192]%N ++ runes_of_ascii "
+}")).
+Eval vm_compute in ("<<<M1033>>>" ++ check (runes_of_ascii "packet A {
+ u8 x `d" ++ [11]%N ++ runes_of_ascii "`, // c" ++ [11]%N ++ runes_of_ascii "
+}")).
+Eval vm_compute in ("<<<M1895>>>" ++ check (runes_of_ascii "
+
+  packet
+	A { }  // c" ++ [8287]%N ++ runes_of_ascii "
+ 
+")).
+Eval vm_compute in ("<<<M1111>>>" ++ check (runes_of_ascii "MetaData tag { } // c
+")).
+Eval vm_compute in ("<<<M1137>>>" ++ check (runes_of_ascii "MetaData u { }
 // c
-u
-    { } ")).
-Eval vm_compute in ("<<<M1080>>>" ++ check (runes_of_ascii "options { a = 1 // a
- ; }")).
-Eval vm_compute in ("<<<M1069>>>" ++ check (runes_of_ascii "// a// bpacket A {}")).
-Eval vm_compute in ("<<<M1128>>>" ++ check (runes_of_ascii "// c
-MetaData u { }")).
-Eval vm_compute in ("<<<M1017>>>" ++ check (runes_of_ascii "// c" ++ [8233]%N ++ runes_of_ascii "
+")).
+Eval vm_compute in ("<<<M992>>>" ++ check (runes_of_ascii "// c" ++ [133]%N ++ runes_of_ascii "
 packet A {
 }")).
-Eval vm_compute in ("<<<M994>>>" ++ check (runes_of_ascii "packet A {
-}// c" ++ [5760]%N)).
-Eval vm_compute in ("<<<M46>>>" ++ check (runes_of_ascii "//x
+Eval vm_compute in ("<<<M1570>>>" ++ check (runes_of_ascii "
+packet
 
-// a // b
-")).
-Eval vm_compute in ("<<<M1399>>>" ++ check (runes_of_ascii "
-// c" ++ [8192]%N ++ runes_of_ascii "
-")).
-Eval vm_compute in ("<<<M726>>>" ++ check (runes_of_ascii "
-	 ")).
+len 
+{
+
+}")).
+Eval vm_compute in ("<<<M1946>>>" ++ check (runes_of_ascii "packet x {
+}
+// c")).
+Eval vm_compute in ("<<<M255>>>" ++ check (runes_of_ascii " /// triple")).
+Eval vm_compute in ("<<<M1055>>>" ++ check (runes_of_ascii "// c" ++ [6158]%N)).
